@@ -19,6 +19,8 @@ type SFInfo struct {
 	Node  string
 	IsSC  bool
 	Clean bool
+	// ExpelFacts: hashes of the expel facts the ballot carried (accepted ones only)
+	ExpelFacts []string
 }
 
 // Emission is a voteproof that came out of the ballotbox.
@@ -113,6 +115,23 @@ func (d *Driver) Close() {
 	_ = d.Box.Stop()
 }
 
+// allSubmitted: every sign fact any driver of this process submitted. The
+// record pool of isaac/states is process-global: a callback of box A that is
+// still in flight when its record was released can count the record after the
+// pool gave it to box B (a production process has one ballotbox; there the
+// late callback counts a live record of the same box). Voteproofs made of
+// another box's sign facts are recognised with this and set aside.
+var allSubmitted sync.Map // string(sf.HashBytes()) -> *Driver
+
+// ForeignSignFact tells whether sf was submitted by another driver only.
+func (d *Driver) ForeignSignFact(sf base.BallotSignFact) bool {
+	if d.Submitted(sf) != nil {
+		return false
+	}
+	v, ok := allSubmitted.Load(string(sf.HashBytes()))
+	return ok && v.(*Driver) != d
+}
+
 func (d *Driver) register(st *Step, actor int) {
 	d.mu.Lock()
 	defer d.mu.Unlock()
@@ -134,6 +153,7 @@ func (d *Driver) register(st *Step, actor int) {
 		return
 	}
 	k := string(sf.HashBytes())
+	allSubmitted.LoadOrStore(k, d)
 	if _, ok := d.submitted[k]; !ok {
 		d.submitted[k] = &SFInfo{SF: sf, SP: st.SP, IsSC: st.IsSC, Node: st.Node, Clean: st.Clean}
 	}
@@ -150,7 +170,15 @@ func (d *Driver) accept(st *Step, sf base.BallotSignFact) {
 		m = map[string]*SFInfo{}
 		d.accepted[k] = m
 	}
-	m[string(sf.HashBytes())] = &SFInfo{SF: sf, SP: st.SP, IsSC: st.IsSC, Node: st.Node, Clean: st.Clean}
+	info := &SFInfo{SF: sf, SP: st.SP, IsSC: st.IsSC, Node: st.Node, Clean: st.Clean}
+	if st.Ballot != nil {
+		if w, ok := st.Ballot.(base.HasExpels); ok {
+			for _, op := range w.Expels() {
+				info.ExpelFacts = append(info.ExpelFacts, op.Fact().Hash().String())
+			}
+		}
+	}
+	m[string(sf.HashBytes())] = info
 	d.ops["voted_true"]++
 }
 
